@@ -246,7 +246,7 @@ theorem hand_step {s s' : St} (hi : Inv s) (h : Hand s) (ev : Ev) (hs : step s e
             have h4 := (h.tbl_seq w hw).2 (by omega)
             omega
     · cases hs
-  | fInstall o =>
+  | fInstall o vid =>
     simp only [step] at hs
     split at hs
     · rename_i hc
@@ -280,6 +280,22 @@ theorem hand_step {s s' : St} (hi : Inv s) (h : Hand s) (ev : Ev) (hs : step s e
       · intro hs'; cases hs'
     · cases hs
   | rSnap rid ts mem imm =>
+    simp only [step] at hs
+    split at hs
+    · split at hs
+      · cases hs
+        exact ⟨h.mem_lt, h.tbl_le, h.tbl_seq, h.imm_lt, h.ksorted, h.f_mem, h.inst_sealed, h.sealed_done,
+          h.flushed_done, h.flushed_lt⟩
+      · cases hs
+    · cases hs
+  | tInstall vid =>
+    simp only [step] at hs
+    split at hs
+    · cases hs
+      exact ⟨h.mem_lt, h.tbl_le, h.tbl_seq, h.imm_lt, h.ksorted, h.f_mem, h.inst_sealed, h.sealed_done,
+        h.flushed_done, h.flushed_lt⟩
+    · cases hs
+  | rTree rid vid =>
     simp only [step] at hs
     split at hs
     · cases hs
